@@ -14,10 +14,15 @@ def run(ctx):
     if ctx.tier == "quick":
         dscommon.run_family(ctx, "C14", fmt="text", limit=500, always_nontrivial=True)
         dscommon.run_family(ctx, "C14Two", fmt="text", limit=300, always_nontrivial=True)
+        # the whole request menu on ONE Data object (whole-array requests before the slices): the climatology is removed exactly once
+        dscommon.run_family(ctx, "C14", fmt="text", limit=150, fresh=False, always_nontrivial=True)
+        dscommon.run_family(ctx, "C14Two", fmt="text", limit=100, fresh=False, always_nontrivial=True)
     else:
         dscommon.run_family(ctx, "C14", fmt="text", always_nontrivial=True)
         dscommon.run_family(ctx, "C14Two", fmt="text", always_nontrivial=True)
         dscommon.run_family(ctx, "C14", fmt="netcdf", limit=800, always_nontrivial=True)
         dscommon.run_family(ctx, "C01Clim", fmt="text", always_nontrivial=True)
+        dscommon.run_family(ctx, "C14", fmt="text", fresh=False, always_nontrivial=True)
+        dscommon.run_family(ctx, "C14Two", fmt="text", fresh=False, always_nontrivial=True)
         ctx.exhaustive = True
     par.clean_workdirs()
